@@ -1,7 +1,7 @@
 (* Dispatcher for the fmt area (C02, C03, string literals of C18): executable
    entry points used by the correspondence check (extracted to OCaml and
    also run by vm_compute).  All request decoding is Gallina. *)
-From FendV Require Import Base.Prelude Fmt.Rat Fmt.Format Fmt.Lex Fmt.StringLit Fmt.Root Fmt.Flag.
+From FendV Require Import Base.Prelude Fmt.Rat Fmt.Format Fmt.Lex Fmt.StringLit Fmt.Root Fmt.Flag Fmt.RealFlag.
 From Coq Require Import QArith.
 Open Scope N_scope.
 
@@ -189,6 +189,43 @@ Fixpoint as_slitems (l : list sx) : option (list slitem) :=
               | Some i, Some is => Some (i :: is) | _, _ => None end
   end.
 
+(* Real-layer expressions on the wire: ("lit" neg num den) ("pi") ("approx" e) ("neg" e)
+   ("add" a b) ("sub" a b) ("mul" a b) ("div" a b) ("pow" e n) ("floor" e) ("ceil" e) ("round" e) *)
+Fixpoint as_rexpr (s : sx) : option rexpr :=
+  match s with
+  | XL [XS k] => if opeq k "pi" then Some RPiC else None
+  | XL [XS k; n; p; q] =>
+    if opeq k "lit" then
+      match as_N n, as_N p, as_N q with
+      | Some n, Some p, Some (Npos q) =>
+        Some (RLit ((if n =? 0 then Z.of_N p else (- Z.of_N p)%Z) # q))
+      | _, _, _ => None
+      end
+    else None
+  | XL [XS k; a] =>
+    match as_rexpr a with
+    | Some a => if opeq k "approx" then Some (RApx a) else if opeq k "neg" then Some (RNeg a)
+                else if opeq k "floor" then Some (RFloor a) else if opeq k "ceil" then Some (RCeil a)
+                else if opeq k "round" then Some (RRound a) else None
+    | None => None
+    end
+  | XL [XS k; a; b] =>
+    if opeq k "pow" then
+      match as_rexpr a, as_N b with Some a, Some n => Some (RPow a n) | _, _ => None end
+    else
+    match as_rexpr a, as_rexpr b with
+    | Some a, Some b =>
+      if opeq k "add" then Some (RAdd a b) else if opeq k "sub" then Some (RSub a b)
+      else if opeq k "mul" then Some (RMul a b) else if opeq k "div" then Some (RDiv a b)
+      else None
+    | _, _ => None
+    end
+  | _ => None
+  end.
+
+Definition sx_rpat (p : rpat) : list sx :=
+  match p with RSimple q => [XS (B"s"); sx_Q q] | RPi q => [XS (B"p"); sx_Q q] end.
+
 Definition run_fmt : dispatcher := fun op args =>
   if opeq op "fmt-rat" then
     match args with
@@ -322,6 +359,30 @@ Definition run_fmt : dispatcher := fun op args =>
                         (mkrat (negb (en =? 0)) (limbs_val enum) (limbs_val eden))))
       | _, _, _, _, _, _ => Some sx_bad
       end
+    | _ => Some sx_bad
+    end
+  else if opeq op "rflag" then
+    (* (rflag pinum piden expr) -> ("ok" "s"|"p" (coefficient) (approximated value) flag known-class)
+       pinum/piden: the rational Real::approximate uses for pi *)
+    match args with
+    | [pn; pd; e] =>
+      match as_N pn, as_N pd, as_rexpr e with
+      | Some pn, Some (Npos pd), Some re =>
+        let piq := (Z.of_N pn # pd) in
+        Some (sx_resn (fun r => sx_rpat (fst r) ++ [sx_Q (rapprox piq (fst r)); sx_bool (snd r);
+                                                    sx_bool (known_C03_intfn_of_pi piq re)])
+                      (rfeval piq re))
+      | _, _, _ => Some sx_bad
+      end
+    | _ => Some sx_bad
+    end
+  else if opeq op "sval" then
+    (* symbolic reference a + b pi: ("some" ((a) (b))) | ("none") *)
+    match args with
+    | [e] => match as_rexpr e with
+             | Some re => Some (sx_opt (fun s => XL [sx_Q (fst s); sx_Q (snd s)]) (sval re))
+             | None => Some sx_bad
+             end
     | _ => Some sx_bad
     end
   else if opeq op "flag" then
